@@ -457,24 +457,65 @@ Definition flush_buffer (st : ostate) : ostate :=
   | b => mkO [] (CWide b :: o_out st)
   end.
 
-Definition ostep (bs : N) (st : ostate) (w : owrite) : ostate :=
+(* The stream exists in two variants, told apart by GenForms.stream_keeps_high_surrogate (regenerated from
+   /repo): the original one, and the one repaired for K05e / C08 K-C08-2, where a flush that happens because
+   more data is coming (flushBufferForMore) keeps a trailing high surrogate in the buffer.  The functions take
+   the variant as their first argument k; the lemmas hold for both. *)
+Definition is_high_surrogate (c : N) : bool := N.leb 55296 c && N.leb c 56319.
+
+(* flushBufferForMore (k = true) / flushBuffer (k = false) *)
+Definition flush_for_more (k : bool) (st : ostate) : ostate :=
+  if k then
+    match rev (o_buf st) with
+    | last :: r => if is_high_surrogate last
+                   then mkO [last] (o_out (flush_buffer (mkO (rev r) (o_out st))))
+                   else flush_buffer st
+    | [] => flush_buffer st
+    end
+  else flush_buffer st.
+
+(* repaired write(block) of a block larger than the buffer: a waiting high surrogate goes out together with
+   the block's first unit; the block's own trailing high surrogate waits for the next write *)
+Definition big_block (st1 : ostate) (d : list N) : ostate :=
+  match d with
+  | [] => st1
+  | x :: d' =>
+      let (out2, d2) := match o_buf st1 with
+                        | [] => (o_out st1, d)
+                        | b => (CWide (b ++ [x]) :: o_out st1, d')
+                        end in
+      match rev d2 with
+      | [] => mkO [] out2
+      | last :: r => if is_high_surrogate last
+                     then mkO [last] (match r with [] => out2 | _ => CWide (rev r) :: out2 end)
+                     else mkO [] (CWide d2 :: out2)
+      end
+  end.
+
+Definition ostep_k (k : bool) (bs : N) (st : ostate) (w : owrite) : ostate :=
   match w with
   | OWide d =>
-      let st1 := if N.ltb bs (len d + len (o_buf st)) then flush_buffer st else st in
+      let st1 := if N.ltb bs (len d + len (o_buf st)) then flush_for_more k st else st in
       if N.ltb bs (len d)
-      then mkO (o_buf st1) (CWide d :: o_out st1)
+      then (if k then big_block st1 d else mkO (o_buf st1) (CWide d :: o_out st1))
       else mkO (o_buf st1 ++ d) (o_out st1)
   | OChar c =>
-      let st1 := if N.eqb (len (o_buf st)) bs then flush_buffer st else st in
+      let full := if k then N.leb bs (len (o_buf st)) else N.eqb (len (o_buf st)) bs in
+      let st1 := if full then flush_for_more k st else st in
       mkO (o_buf st1 ++ [c]) (o_out st1)
   | ONarrow d => mkO (o_buf st) (CNarrow d :: o_out st)
   | OFlush => flush_buffer st
   end.
 
-Definition orun (bs : N) (ws : list owrite) : ostate := fold_left (ostep (eff_size bs)) ws (mkO [] []).
+Definition orun_k (k : bool) (bs : N) (ws : list owrite) : ostate := fold_left (ostep_k k (eff_size bs)) ws (mkO [] []).
+Definition chunks_k (k : bool) (bs : N) (ws : list owrite) : list ochunk := rev (o_out (orun_k k bs ws)).
+
+(* the stream of the current /repo *)
+Definition ostep := ostep_k stream_keeps_high_surrogate.
+Definition orun := orun_k stream_keeps_high_surrogate.
 
 (* the sequence of callback invocations *)
-Definition chunks (bs : N) (ws : list owrite) : list ochunk := rev (o_out (orun bs ws)).
+Definition chunks := chunks_k stream_keeps_high_surrogate.
 
 Definition delivered (cs : list ochunk) : list N := flat_map chunk_data cs.
 
@@ -485,9 +526,10 @@ Definition written (ws : list owrite) : list N := flat_map write_data ws.
 
 (* decidable guard: every narrow write finds the buffer empty (the documented obligation of the
    caller of write(const char*, n)) *)
-Fixpoint narrow_ok_from (bs : N) (st : ostate) (ws : list owrite) : bool :=
+Fixpoint narrow_ok_from (k : bool) (bs : N) (st : ostate) (ws : list owrite) : bool :=
   match ws with
   | [] => true
-  | w :: r => (match w with ONarrow _ => is_nil (o_buf st) | _ => true end) && narrow_ok_from bs (ostep bs st w) r
+  | w :: r => (match w with ONarrow _ => is_nil (o_buf st) | _ => true end) && narrow_ok_from k bs (ostep_k k bs st w) r
   end.
-Definition narrow_ok (bs : N) (ws : list owrite) : bool := narrow_ok_from (eff_size bs) (mkO [] []) ws.
+Definition narrow_ok_k (k : bool) (bs : N) (ws : list owrite) : bool := narrow_ok_from k (eff_size bs) (mkO [] []) ws.
+Definition narrow_ok := narrow_ok_k stream_keeps_high_surrogate.
